@@ -561,7 +561,7 @@ func (wd *World) bindPlain(b IWorkerBinder[int], kind int, qc QCfg) *qh {
 		var lq PriorityQueue[int]
 		if qc.Wrap {
 			q.rq = newRecQ(wd, nil, queues.NewPriorityQueue[iJob[int]]())
-			lq = b.WithPriorityQueue(recPQ{q.rq})
+			lq = b.WithPriorityQueue(&recPQ{q.rq})
 		} else {
 			lq = b.BindPriorityQueue()
 		}
@@ -610,7 +610,7 @@ func (wd *World) bindErr(b IErrWorkerBinder[int], kind int, qc QCfg) *qh {
 		var lq ErrPriorityQueue[int]
 		if qc.Wrap {
 			q.rq = newRecQ(wd, nil, queues.NewPriorityQueue[iErrorJob[int]]())
-			lq = b.WithPriorityQueue(recPQ{q.rq})
+			lq = b.WithPriorityQueue(&recPQ{q.rq})
 		} else {
 			lq = b.BindPriorityQueue()
 		}
@@ -650,7 +650,7 @@ func (wd *World) bindResult(b IResultWorkerBinder[int, int], kind int, qc QCfg) 
 		var lq ResultPriorityQueue[int, int]
 		if qc.Wrap {
 			q.rq = newRecQ(wd, nil, queues.NewPriorityQueue[iResultJob[int, int]]())
-			lq = b.WithPriorityQueue(recPQ{q.rq})
+			lq = b.WithPriorityQueue(&recPQ{q.rq})
 		} else {
 			lq = b.BindPriorityQueue()
 		}
@@ -759,7 +759,7 @@ func (r recAQ) Acknowledge(id string) bool {
 
 func userQueue(r *recQ, qc QCfg) IQueue {
 	if qc.AckCap {
-		return recAQ{r}
+		return &recAQ{r}
 	}
 	return r
 }
